@@ -38,6 +38,38 @@ def time_sets(a, b):
     return share, incl
 
 
+def reach(kind, spec, style, route):
+    """a shape of `kind` whose time bounds are `spec`, reached as long-lived objects reach them: built with other
+    bounds, asked time-aware questions (which may cache things), then updated IN PLACE.  Route 0 is the constructor.
+    The predicates must depend on the bounds the shape reports now, whatever was asked before."""
+    from datetime import timedelta
+    if route == 0:
+        return KINDS[kind](dt=mk_dt(spec, style)), 'ctor'
+
+    def ask(x):
+        probe = KINDS['polygon'](dt=mk_dt(('v', 0, 4)))
+        guarded(lambda: (x.intersects(probe), probe.contains(x), x.dt.is_instant if x.dt else None,
+                         x.contains_time(to_dt(H)) if x.dt else None, hash(x.dt)))
+    if spec is not None and spec[0] == 'v' and (spec[2] - spec[1]) % 2 == 0 and route == 2:
+        mid, half = (spec[1] + spec[2]) // 2, (spec[2] - spec[1]) // 2
+        x = KINDS[kind](dt=mk_dt(('i', mid), style))          # an instant, queried, then widened in place
+        ask(x)
+        x.buffer_dt(timedelta(hours=half))
+        return x, 'instant+query+buffer_dt'
+    if spec is not None and spec[0] == 'i' and route == 2:
+        x = KINDS[kind](dt=mk_dt(('v', spec[1] - 1, spec[1] + 1), style))   # an interval, queried, then shrunk to an instant
+        ask(x)
+        x.buffer_dt(timedelta(hours=-1))
+        return x, 'interval+query+buffer_dt(-)'
+    x = KINDS[kind](dt=mk_dt(('v', 1, 3) if spec is None or spec[0] == 'i' else ('i', spec[1]), style))
+    ask(x)
+    if spec is None:
+        x.strip_dt()
+        return x, 'query+strip_dt'
+    x.set_dt(mk_dt(spec, style))
+    return x, 'query+set_dt'
+
+
 def main():
     ck = Check('C05')
     ck.build_theories(['theories/Props/C05.vo', 'theories/Corr/ShapeK.vo'])
@@ -81,9 +113,14 @@ def main():
             combos = [(x, y) for x in specs for y in specs]
         else:
             combos = [(rng.choice(specs), rng.choice(specs)) for _ in range(n_samp)] + [(None, ('i', 1)), (('v', 0, 2), ('v', 2, 4)), (('v', 0, 2), ('i', 2))]
-        for sa, sb in combos:
-            a = KINDS[ka](dt=mk_dt(sa, next(styles)))
-            b = KINDS[kb](dt=mk_dt(sb, next(styles)))
+        for ci, (sa, sb) in enumerate(combos):
+            a, how_a = reach(ka, sa, next(styles), ci % 3)
+            b, how_b = reach(kb, sb, next(styles), (ci // 3) % 3)
+            ck.count('reached:' + how_a)
+            if dt_of_shape(a) != dt_pair(sa) or dt_of_shape(b) != dt_pair(sb):
+                ck.violation({'kind': 'property-fails-on-implementation', 'case': {'a': ka, 'b': kb, 'dta': sa, 'dtb': sb, 'how': [how_a, how_b],
+                              'detail': f'time bounds after the updates are {dt_of_shape(a)} / {dt_of_shape(b)}, expected {dt_pair(sa)} / {dt_pair(sb)}'}})
+                continue
             a0, b0 = KINDS[ka](), KINDS[kb]()        # the same geometry without time bounds: the spatial test proper
             obs = guarded(lambda: (a0.intersects_shape(b0), a0.contains_shape(b0), a.intersects(b), a.contains(b), b in a))
             if obs[0] != 'Ok':
@@ -92,7 +129,7 @@ def main():
             si, sc, oi, oc, oin = obs[1]
             pa, pb = dt_pair(sa), dt_pair(sb)
             add(f'KGate {olit(pa)} {olit(pb)} {blit(si)} {blit(sc)} {blit(oi)} {blit(oc)} {blit(oin)}',
-                {'k': 'gate', 'a': ka, 'b': kb, 'dta': sa, 'dtb': sb, 'spatial': [si, sc], 'obs': [oi, oc, oin]})
+                {'k': 'gate', 'a': ka, 'b': kb, 'dta': sa, 'dtb': sb, 'how': [how_a, how_b], 'spatial': [si, sc], 'obs': [oi, oc, oin]})
             if pa and pb and len({pa[0], pa[1], pb[0], pb[1]}) < 4:
                 nontriv.add((ka, kb, sa, sb))
             # the property itself, on the implementation's answers
